@@ -1,5 +1,5 @@
 """Registry of the claimed properties: Lean module, correspondence parts, trusted base."""
-from .domains import upcast, bus, store, state
+from .domains import upcast, bus, store, state, names
 
 COMMON_ASSUME = [
     "the hand-written Lean model equals the Go code only on the inputs the correspondence ran (differential testing, reported under coverage)",
@@ -88,4 +88,15 @@ PROPS.update({
         parts=[dict(name="state19", domain="state", domain_module="state", gen=state.make_gen("C19"), n_quick=300, n_thorough=10000, chunk=64)],
         rule="as C18 plus a table of 30 hostile/odd documents (case variants, duplicate keys, wrong types, nulls, missing parts) classified by the model, every helper-built message's JSON bytes parsed and compared with the model's encoder, and a byte-level fuzz of Apply (mutated + random bytes) judged on the implementation; non-trivial = raw documents or option combinations present",
         trusted_base=["encoding/json (syntax, case-insensitive field matching as transcribed)"], assumptions=COMMON_ASSUME),
+})
+
+PROPS.update({
+    "C15": dict(module="Ebu.Props.C15", ready=True,
+        parts=[dict(name="names15", domain="names", domain_module="names", gen=names.gen, n_quick=1, n_thorough=1)],
+        rule="exhaustive: the 10 instantiated shapes (value/pointer x no namer / value-receiver namer / pointer-receiver namer, plus state.ChangeMessage and state.ControlMessage by value and pointer) x 5 routes (EventType, persisted name, SubscribeWithReplay, RegisterUpcast source, RegisterUpcast target), each shape alone and in 3 random orders; non-trivial = a typed replay subscription matched a persisted event; distinct = distinct implementation traces",
+        trusted_base=["reflect.Type.Implements and dynamic type assertion follow Go's method-set rule (the model encodes the language rule; the harness validates it against the compiler on every shape)"],
+        assumptions=COMMON_ASSUME + ["events are published as non-nil values; EventTypeName does not depend on the value (value-dependent names are covered by C09's harness types)"],
+        extra_coverage=lambda: {"exhaustive": True},
+        level_text="Proof over the whole (finite) quantifier: for every shape and every route the name used equals EventType's (names_agree), hence a persisted event is matched by its typed replay subscription and typed upcasters; the custom name is used exactly per Go's method-set rule. The model is validated against the compiler by instantiating every shape as a real Go type and observing the name each route actually uses (exhaustive).",
+        level_note="Trusted: Lean kernel (+propext); the harness; Go reflection semantics. The theorem is only as good as the model's claim that each route uses the mechanism it names; that claim is what the exhaustive correspondence checks on every run."),
 })
